@@ -117,6 +117,11 @@ def entry_points(T: str, D: str):
     eps.append(("aspolynomial(x_T, dtype=D)", lambda: numpoly.aspolynomial(xT, dtype=D), {(0,): castTD}))
     eps.append(("polynomial_from_attributes(dtype=D)", lambda: numpoly.polynomial_from_attributes([[0], [1]], [xT, one], names=("q0",), dtype=D), {(0,): castTD, (1,): one.astype(D)}))
     eps.append(("polynomial_from_attributes()", lambda: numpoly.polynomial_from_attributes([[0], [2]], [xT, one], names=("q0",)), {(0,): xT, (2,): one}))
+    # heterogeneous coefficient dtypes and no dtype request: the polynomial takes the first coefficient's dtype and numpy's cast of the rest
+    with numpy.errstate(all="ignore"):
+        castDT = yD.astype(T)
+    eps.append(("polynomial_from_attributes([x_T, y_D])", lambda: numpoly.polynomial_from_attributes([[0], [1]], [xT, yD], names=("q0",)), {(0,): xT, (1,): castDT}))
+    eps.append(("polynomial({..: x_T, ..: y_D})", lambda: numpoly.polynomial({(0,): xT, (2,): yD}, names=("q0",)), {(0,): xT, (2,): castDT}))
     if T == D:
         eps.append(("variable(dtype=D)", lambda: numpoly.variable(2, dtype=D), {(1, 0): numpy.array([1, 0], dtype=D), (0, 1): numpy.array([0, 1], dtype=D)}))
         eps.append(("symbols(dtype=D)", lambda: numpoly.symbols("q0 q1", dtype=D), {(1, 0): numpy.array([1, 0], dtype=D), (0, 1): numpy.array([0, 1], dtype=D)}))
